@@ -96,22 +96,23 @@ def modeled(pipe):
 
 # ---------------------------------------------------------------- running both modes
 
-def plain_group(pipe, items, complete=True, share=False):
-    r = M.run_plain(pipe, items, complete=complete, share_ops=share)
+def plain_group(pipe, items, complete=True, share=False, feedback=False):
+    r = M.run_plain(pipe, items, complete=complete, share_ops=share, feedback=feedback)
     err_at = 0
     if r['end'] == 'error':
         err_at = max(1, min(r['endstep'], len(items)))
     return r, err_at
 
 
-def pair_direct(rng, pipe, groups, share=False):
+def pair_direct(rng, pipe, groups, share=False, tr=None, feedback=False):
     """groups: list of (idx, items); several groups may use the same key index one after
     the other (a key slot served again by a later group).  mux: events pushed directly,
     keys interleaved, taps at the two ends of the pipeline only."""
     if isinstance(groups, dict):
         groups = list(groups.items())
-    src = G.schedule(rng, groups)
-    tr = M.run_mux(pipe, src, taps='ends', share_ops=share)
+    if tr is None:
+        src = G.schedule(rng, groups)
+        tr = M.run_mux(pipe, src, taps='ends', share_ops=share, feedback='end' if feedback else None)
     tail = MC.log_of(tr, [len(pipe)])
     b0 = MC.log_of(tr, [0])
     died = tr['end']['t'] == 'error'
@@ -146,7 +147,7 @@ def pair_direct(rng, pipe, groups, share=False):
         life = (idx, seen[idx])
         mux_items = out_of.get(life, [])
         if not died:
-            pr, perr = plain_group(pipe, items, share=share)
+            pr, perr = plain_group(pipe, items, share=share, feedback=feedback)
             g = {'items': items, 'mux': mux_items, 'muxerr': 0, 'plain': [o['v'] for o in pr['out']],
                  'plainend': pr['end'], 'plainerr': perr, 'errtype': pr.get('errtype')}
         else:
@@ -169,6 +170,20 @@ def _completed_before_death(b0, dead_o, idx, nth):
         if e['k'][0] == idx and e['t'] == 'd' and n == nth:
             return e['o'] < dead_o
     return False
+
+
+def pair_multi(rng, pipes, groups_per_source):
+    """mux: every pipeline on one source of with_store(store, sources=[...]) (one shared store
+    manager and topology), the events of the sources interleaved.  Returns, per source,
+    (trace, group comparisons) as pair_direct does."""
+    streams = [[(si, e) for e in G.schedule(rng, groups)] for si, groups in enumerate(groups_per_source)]
+    schedule, pos = [], [0] * len(streams)
+    while any(pos[i] < len(streams[i]) for i in range(len(streams))):
+        i = rng.choice([j for j in range(len(streams)) if pos[j] < len(streams[j])])
+        schedule.append(streams[i][pos[i]])
+        pos[i] += 1
+    trs = M.run_multi(pipes, schedule, taps='ends')
+    return [pair_direct(rng, pipes[i], groups_per_source[i], tr=trs[i]) for i in range(len(pipes))], schedule
 
 
 def pair_grouped(pipe, items, c, nested=False):
@@ -214,13 +229,19 @@ def main(tier, replay):
     if replay:
         w = json.load(open(replay))['witness']
         pipe = json.loads(w['pipe'])
-        if w.get('mode') == 'grouped':
+        if w.get('mode') == 'multi':
+            gg = w['groups']
+            res, _ = pair_multi(random.Random(w.get('sched_seed', 0)), gg['pipes'],
+                                [[(g[0], g[1]) for g in gp] for gp in gg['gps']])
+            tr, gs = res[gg['index']]
+        elif w.get('mode') == 'grouped':
             gg = w['groups']
             tr, gs, _died = pair_grouped(pipe, gg['items'], gg['c'], nested=gg['nested'])
         else:
             groups = [(g[0], g[1]) for g in w['groups']]
-            tr, gs = pair_direct(random.Random(w.get('sched_seed', 0)), pipe, groups, share=w.get('share_ops', False))
-        if any(g.get('errtype') in PRECOND_ERRORS for g in gs):
+            tr, gs = pair_direct(random.Random(w.get('sched_seed', 0)), pipe, groups, share=w.get('share_ops', False),
+                                    feedback=w.get('feedback', False))
+        if any(g.get('errtype') in PRECOND_ERRORS for g in gs) or tr['end'].get('etype') in PRECOND_ERRORS:
             print('outside C01: first/last/mean(reduce) met an empty group (the plain operator raises by design)')
             return 0
         v, _ = C.validate_traces('PlainTrace', [{'pipe': pipe, 'modeled': modeled(pipe), 'oracle': 'pair',
@@ -285,8 +306,11 @@ def main(tier, replay):
             sched_seed = rng.randint(0, 10**9)
             tr, gs = pair_direct(random.Random(sched_seed), pipe, groups)
             mode = 'direct'
-        if any(g.get('errtype') in PRECOND_ERRORS for g in gs):
-            skipped += 1          # first/last/mean(reduce) met an empty group: outside C01
+        if any(g.get('errtype') in PRECOND_ERRORS for g in gs) or tr['end'].get('etype') in PRECOND_ERRORS:
+            # first/last/mean(reduce) met an empty group: outside C01.  (On the multiplexed side
+            # mean(reduce) of an empty key divides by zero, which kills the stream; the plain
+            # run may not show it when something downstream had already completed.)
+            skipped += 1
             continue
         traces.append({'pipe': pipe, 'modeled': modeled(pipe), 'oracle': 'pair',
                        'groups': [{k: g[k] for k in g if k != 'errtype'} for g in gs]})
@@ -306,6 +330,46 @@ def main(tier, replay):
                        'groups': [{k: g[k] for k in g if k != 'errtype'} for g in gs]})
         mux_traces.append(tr)
         meta.append({'mode': 'direct', 'groups': groups, 'sched_seed': sched_seed})
+    # dedicated: re-entrant delivery (the subscriber pushes the next item from inside on_next),
+    # in both modes; operators that give at most one output per item, as their last action.
+    # (Not `first`: the plain RxPY operator emits and only then completes, so under re-entrant
+    # delivery it is the plain side that lets every nested item through.)
+    fb_ops = [G.op_scan('add', I(0)), {'op': 'count', 'reduce': False}, G.op_agg('sum', False), G.op_agg('max', False),
+              G.op_simple('duc', f=fn('id')), G.op_simple('take', n=2), G.op_map('addc', 1),
+              G.op_filter('even'), G.op_simple('last'), G.op_simple('to_list'), G.op_agg('mean', False)]
+    for _ in range(100 if thorough else 30):
+        pipe = [rng.choice(fb_ops) for _ in range(rng.choice([1, 1, 2, 3]))]
+        if any(completion_triggered(o) or o['op'] == 'mean' for o in pipe[:-1]) or \
+                pipe[-1]['op'] in ('last', 'to_list') and len(pipe) > 1:
+            pipe = pipe[-1:]       # (a mean feeds rationals to the integer aggregates of the model)
+        groups = [(idx, G.ints([rng.randint(0, 4) for _ in range(rng.randint(1, 6))]))
+                  for idx in rng.sample([0, 1, 3], rng.choice([1, 2]))]
+        sched_seed = rng.randint(0, 10**9)
+        tr, gs = pair_direct(random.Random(sched_seed), pipe, groups, feedback=True)
+        if any(g.get('errtype') in PRECOND_ERRORS for g in gs):
+            skipped += 1
+            continue
+        traces.append({'pipe': pipe, 'modeled': modeled(pipe), 'oracle': 'pair',
+                       'groups': [{k: g[k] for k in g if k != 'errtype'} for g in gs]})
+        mux_traces.append(tr)
+        meta.append({'mode': 'direct', 'groups': groups, 'sched_seed': sched_seed, 'feedback': True})
+    # dedicated: the multi-source form of with_store (several pipelines on one shared store)
+    for _ in range(60 if thorough else 16):
+        k = rng.choice([2, 2, 3])
+        pipes = [gen_dual(rng, 'int', rng.choice([1, 2]), rng.choice([0, 1]))[0] for _ in range(k)]
+        gps = [[(idx, G.ints([rng.randint(-1, 4) for _ in range(rng.randint(1, 6))]))
+                for idx in rng.sample([0, 1, 3], rng.choice([1, 2]))] for _ in range(k)]
+        sched_seed = rng.randint(0, 10**9)
+        res, _sched = pair_multi(random.Random(sched_seed), pipes, gps)
+        for si, (tr, gs) in enumerate(res):
+            if any(g.get('errtype') in PRECOND_ERRORS for g in gs) or tr['end'].get('etype') in PRECOND_ERRORS \
+                    or tr['end'].get('raised'):
+                skipped += 1
+                continue
+            traces.append({'pipe': pipes[si], 'modeled': modeled(pipes[si]), 'oracle': 'pair',
+                           'groups': [{k_: g[k_] for k_ in g if k_ != 'errtype'} for g in gs]})
+            mux_traces.append(tr)
+            meta.append({'mode': 'multi', 'groups': {'pipes': pipes, 'gps': gps, 'index': si}, 'sched_seed': sched_seed})
     # dedicated: None as an item (a legitimate value that state slots must be able to hold)
     for _ in range(200 if thorough else 60):
         tailop = rng.choice([G.op_simple('duc', f=fn('id')), G.op_simple('last'), G.op_simple('last'),
@@ -353,15 +417,18 @@ def main(tier, replay):
 
     verdicts, st = C.validate_traces('PlainTrace', traces)
     out_of_sync = 0
+    oos_samples = []
     for tr, mt, v in zip(traces, meta, verdicts):
         if v[0] == 'ACCEPT':
             if v[2] is not True:
                 out_of_sync += 1
+                oos_samples.append({'ops': ' '.join(MC.op_names(tr['pipe'])), 'mode': mt['mode'],
+                                    'feedback': mt.get('feedback', False), 'groups': tr['groups'][:2]})
         else:
             g = tr['groups'][v[1] - 1]
             V.violation({'ops': ' '.join(MC.op_names(tr['pipe'])), 'pipe': json.dumps(tr['pipe'], sort_keys=True),
                          'mode': mt['mode'], 'groups': mt['groups'], 'sched_seed': mt['sched_seed'],
-                         'share_ops': mt.get('share_ops', False),
+                         'share_ops': mt.get('share_ops', False), 'feedback': mt.get('feedback', False),
                          'group': g}, v[2], detail='group %d' % v[1])
     # localisation only: the multiplexed side against the layer-A contracts
     st2 = {}
@@ -374,7 +441,8 @@ def main(tier, replay):
     V.phase('trace validation')
     if out_of_sync:
         V.note('impl_model_in_sync=false: %d accepted pairs differ from PlainSem in one of the modes '
-               '(both modes agree with each other, which is what C01 states)' % out_of_sync)
+               '(both modes agree with each other, which is what C01 states)' % out_of_sync
+               + ' e.g. ' + json.dumps(oos_samples[:1])[:600])
     nontrivial = {json.dumps([t['pipe'], [g['items'] for g in t['groups']]], sort_keys=True)
                   for t in traces if len(t['groups']) >= 2 and len(t['pipe']) >= 2}
     sample = next((t for t in traces if len(t['groups']) >= 2 and len(t['pipe']) >= 3), traces[0])
